@@ -238,6 +238,30 @@ func cmdCheck(args []string) {
 		}
 	}
 	solveAll(results, cfg)
+	// obligations that ran out of time get one more attempt with a longer budget and little contention
+	// (a timeout is not evidence of a violation; this keeps the check quiet on correct code under load)
+	if !*baseline {
+		var retry []*FuncResult
+		for _, r := range results {
+			var obs []*Oblig
+			for _, ob := range r.Obs {
+				if ob.Status == "failed-unknown" || ob.Status == "cover-unknown" {
+					if _, isUn := matchUnclaimed(&uc, ob.Name); isUn {
+						continue
+					}
+					obs = append(obs, ob)
+				}
+			}
+			if len(obs) > 0 {
+				rr := *r
+				rr.Obs = obs
+				retry = append(retry, &rr)
+			}
+		}
+		if len(retry) > 0 {
+			solveAll(retry, solveCfg{quickS: cfg.fullS, fullS: cfg.fullS * 4, workers: 4})
+		}
+	}
 
 	known := map[string]Finding{}
 	for _, f := range kf.Findings {
@@ -286,6 +310,8 @@ func cmdCheck(args []string) {
 			if *baseline {
 				if !ok {
 					fmt.Printf("  %q: %q,\n", ob.Name, ob.Status+" "+ob.Pos)
+				} else if ob.Time > 0.35*float64(cfg.fullS) {
+					fmt.Printf("  %q: %q,\n", ob.Name, fmt.Sprintf("slow (%.1fs of %ds) %s", ob.Time, cfg.fullS, ob.Pos))
 				}
 				continue
 			}
